@@ -39,9 +39,13 @@ func poolQCap(w int) int {
 	if c, ok := qcapCache[w]; ok {
 		return c
 	}
-	p := flyt.NewWorkerPool(w)
-	c := queueCap(p)
-	p.Close()
+	c := -1
+	func() {
+		defer func() { recover() }() // a pool that cannot even be created is the scenario's finding, not the probe's
+		p := flyt.NewWorkerPool(w)
+		c = queueCap(p)
+		p.Close()
+	}()
 	time.Sleep(2 * time.Millisecond) // let the probe's workers exit before anybody counts goroutines
 	qcapCache[w] = c
 	return c
@@ -183,7 +187,18 @@ func runPoolScenario(cfg PoolCfg, steps []poolStep, expKeys []evKey, seed int64)
 		}
 	}
 	base := poolWorkersAlive()
-	pool := flyt.NewWorkerPool(cfg.W)
+	var pool *flyt.WorkerPool
+	func() {
+		defer func() {
+			if r := recover(); r != nil {
+				p.events = append(p.events, Event{"ev": "panic", "msg": fmt.Sprint(r)})
+			}
+		}()
+		pool = flyt.NewWorkerPool(cfg.W)
+	}()
+	if pool == nil {
+		return p.events // the pool could not be created
+	}
 	p.subGate = make([]chan struct{}, cfg.S+1)
 	for s := 1; s <= cfg.S; s++ {
 		p.subGate[s] = make(chan struct{}, total+1)
